@@ -150,6 +150,8 @@ func (session *BaseOutSession) HandleInterleavedPacket(b []byte, channel int) {
 
 func (session *BaseOutSession) WriteRtpPacket(packet rtprtcp.RtpPacket) error {
 	var err error
+	// 对端没有setup的track，包不会发送出去，不能计入发送字节数，否则一个停止接收数据的对端会因为另一个track的包而一直被认为是活跃的
+	wrote := false
 
 	// 发送数据时，保证和sdp的原始类型对应
 	t := int(packet.Header.PacketType)
@@ -161,9 +163,11 @@ func (session *BaseOutSession) WriteRtpPacket(packet rtprtcp.RtpPacket) error {
 
 		if session.audioRtpConn != nil {
 			err = session.audioRtpConn.Write(packet.Raw)
+			wrote = true
 		}
 		if session.audioRtpChannel != -1 {
 			err = session.cmdSession.WriteInterleavedPacket(packet.Raw, session.audioRtpChannel)
+			wrote = true
 		}
 	} else if session.sdpCtx.IsVideoPayloadTypeOrigin(t) {
 		if session.loggedWriteVideoRtpCount < session.debugLogMaxCount {
@@ -173,16 +177,18 @@ func (session *BaseOutSession) WriteRtpPacket(packet rtprtcp.RtpPacket) error {
 
 		if session.videoRtpConn != nil {
 			err = session.videoRtpConn.Write(packet.Raw)
+			wrote = true
 		}
 		if session.videoRtpChannel != -1 {
 			err = session.cmdSession.WriteInterleavedPacket(packet.Raw, session.videoRtpChannel)
+			wrote = true
 		}
 	} else {
 		Log.Errorf("[%s] write rtp packet but type invalid. type=%d", session.UniqueKey(), t)
 		err = nazaerrors.Wrap(base.ErrRtsp)
 	}
 
-	if err == nil {
+	if err == nil && wrote {
 		session.sessionStat.AddWriteBytes(len(packet.Raw))
 	}
 	return err
